@@ -884,6 +884,20 @@ ldb_lock_file(const char *filename, ldb_filelock_t **lock) {
 
   ldb_mutex_lock(&file_mutex);
 
+  /* Record locks belong to the process, and closing any descriptor of a
+     file drops all of them: if this process already holds the lock, refuse
+     before the file is opened (and closed again on the failure path). */
+  if (stat(filename, &st) == 0) {
+    id.dev = st.st_dev;
+    id.ino = st.st_ino;
+
+    if (rb_set_has(&file_set, &id)) {
+      fd = -1;
+      errno = ENOLCK;
+      goto fail;
+    }
+  }
+
   fd = ldb_open(filename, O_RDWR | O_CREAT, 0644);
 
   if (fd < 0 || fstat(fd, &st) != 0)
